@@ -28,6 +28,17 @@ func (db *DB) newReader(ctx context.Context, ptr pointer) (*Reader, error) {
 	if err != nil {
 		return nil, err
 	}
+	// The acquired handle keeps garbage collection away from the file from here on,
+	// but the caller's copy of the pointer may predate a GC pass that has already
+	// compacted the file and shifted the pointer's offset. Re-read it from the index so
+	// the section is cut at the current offset.
+	db.idx.mu.RLock()
+	if i, ok := db.idx.unprotectedSearch(ptr.Start.SpanRange(0)); ok {
+		if cur := db.idx.mu.pointers[i]; cur.TimeRange == ptr.TimeRange && cur.fileKey == ptr.fileKey && cur.size == ptr.size {
+			ptr = cur
+		}
+	}
+	db.idx.mu.RUnlock()
 	reader := io.NewSectionReaderAtCloser(internal, int64(ptr.offset), int64(ptr.size))
 	return &Reader{ptr: ptr, ReaderAtCloser: reader}, nil
 }
